@@ -178,3 +178,21 @@ def node_exprs_contain(node, test):
         if test(root):
             return True
     return False
+
+
+def self_closure(ctx, func):
+    """func plus the methods of its class it reaches through self-calls (helper extraction)"""
+    prog = ctx.program
+    seen = prog.closure([func], edge_filter=lambda e: e.kind in ('call', 'getter') and e.callee.cls is func.cls
+                        and e.callee.cls is not None)
+    return [ctx.model.funcs[q] for q in seen]
+
+
+def loops_in_closure(ctx, func, pred):
+    """[(function, loop)] for loops matching pred(loop) in func or its self-call helpers"""
+    out = []
+    for g in self_closure(ctx, func):
+        for l in loops_in(g.node):
+            if pred(l):
+                out.append((g, l))
+    return out
